@@ -134,25 +134,38 @@ TABLE = {
 }
 
 
-def run_one(name, apply):
+def run_one_real(name, apply):
+    out = []
     d = tempfile.mkdtemp(prefix="ohg-equiv-")
     try:
         subprocess.check_call(["rsync", "-a", "--exclude", "target", "--exclude", ".git", "/repo/", d + "/repo/"])
         if not apply(d + "/repo"):
-            print(f"{name}: SKIPPED (does not apply)")
+            print(f"{name}: SKIPPED (does not apply)", flush=True)
             return
         env = dict(os.environ, OHSA_REPO=d + "/repo", OHSA_CACHE=d + "/cache", OHSA_OUT=d + "/out", OHSA_NO_SELFTEST="1")
         bad = []
+        r = subprocess.run(["python3", os.path.join(VERIF, "ohsa", "check.py"), "ALL"], env=env, capture_output=True,
+                           text=True, timeout=3600)
+        cur, buf, rcs = None, {}, {}
+        for l in r.stdout.splitlines():
+            if l.startswith("@@rc "):
+                _, p_, rc_ = l.split()
+                rcs[p_] = int(rc_)
+            elif l.startswith("@@ "):
+                cur = l[3:].strip()
+                buf[cur] = []
+            elif cur is not None:
+                buf[cur].append(l)
+        if not rcs:
+            bad.append(("ALL", r.returncode, (r.stdout + r.stderr).splitlines()[-6:]))
         for p in PROPS:
-            r = subprocess.run(["python3", os.path.join(VERIF, "ohsa", "check.py"), p], env=env, capture_output=True,
-                               text=True, timeout=1800)
-            if r.returncode != 0:
-                lines = [l for l in r.stdout.splitlines() if l.startswith(("VIOLATION", "ANALYSIS-ERROR", "  "))]
-                bad.append((p, r.returncode, lines[:6]))
+            if rcs.get(p, 0) != 0:
+                lines = [l for l in buf.get(p, []) if l.startswith(("VIOLATION", "ANALYSIS-ERROR", "  "))]
+                bad.append((p, rcs[p], lines[:6]))
         if not bad:
-            print(f"{name}: quiet on all {len(PROPS)} checks")
+            out.append(f"{name}: quiet on all {len(PROPS)} checks")
         else:
-            print(f"{name}: FALSE ALARM on {[(b[0], b[1]) for b in bad]}")
+            out.append(f"{name}: FALSE ALARM on {[(b[0], b[1]) for b in bad]}")
             seen = set()
             for p, rc, lines in bad:
                 for l in lines:
@@ -161,13 +174,19 @@ def run_one(name, apply):
                     k = l.replace("property=" + p, "")[:160]
                     if k not in seen and len(seen) < 3:
                         seen.add(k)
-                        print("     ", p, rc, l[:220])
+                        out.append("      " + f"{p} {rc} " + l[:220])
     finally:
         shutil.rmtree(d, ignore_errors=True)
+        if out:
+            print("\n".join(out), flush=True)
 
 
 def main():
     flt = sys.argv[1:]
+    jobs = []
+
+    def run_one(name, apply, _real=run_one_real):
+        jobs.append((name, apply))
     for name, edits in TABLE.items():
         if flt and not any(name.startswith(x) for x in flt):
             continue
@@ -191,6 +210,10 @@ def main():
         def apply(root, patch=patch):
             return subprocess.run(["patch", "-p1", "-s", "-d", root, "-i", patch], capture_output=True).returncode == 0
         run_one(name, apply)
+    # three edits at a time (each analysis is itself parallel; the export of the next overlaps with it)
+    from concurrent.futures import ThreadPoolExecutor
+    with ThreadPoolExecutor(max_workers=int(os.environ.get("EQUIV_JOBS", "3"))) as ex:
+        list(ex.map(lambda j: run_one_real(*j), jobs))
 
 
 if __name__ == "__main__":
